@@ -14,9 +14,12 @@ HOOKS = []          # the layers need no hooks: only grouping and selection are 
 def chain_world(wid, rng, pattern):
     """pattern: 10 booleans = (layer?, level?) at outer suite, middle suite,
     inner suite, TestCase class, test instance of the focal test t1."""
+    # (UnitTestsX: a layer whose dotted name the unit layer's name, read as a
+    # regular expression, matches)
+    pool = ['L1', 'L2', 'L3'] + (['UnitTestsX'] if rng.random() < 0.25 else [])
     layers = {l: {'kind': rng.choice(['class', 'instance']), 'bases': [], 'hooks': HOOKS}
-              for l in ('L1', 'L2', 'L3')}
-    lay = lambda: rng.choice(['L1', 'L2', 'L3'])      # noqa: E731
+              for l in pool}
+    lay = lambda: rng.choice(pool)      # noqa: E731
     lev = lambda: rng.choice(LEVELS)                    # noqa: E731
 
     def decl(node, i):
@@ -43,7 +46,7 @@ def chain_world(wid, rng, pattern):
     inner = decl({'children': [{'test': 't1'}, {'test': 't2'}]}, 2)
     mid = decl({'children': [inner, {'cls': 'TS'}]}, 1)
     outer = decl({'children': [mid, {'cls': 'TO'}]}, 0)
-    return {'id': wid, 'layers': layers, 'layer_order': ['L1', 'L2', 'L3'],
+    return {'id': wid, 'layers': layers, 'layer_order': pool,
             'classes': classes, 'tests': tests, 'suite': outer}
 
 
@@ -113,7 +116,12 @@ def run(chk, tier, seed, replay=None):
         for _ in range(nopt):
             k += 1
             w = chain_world('c%d' % k, rng, pat)
-            cases.append({'id': w['id'], 'world': w, 'o': level_opts(rng), 'mode': 'inproc'})
+            o = level_opts(rng)
+            if 'UnitTestsX' in w['layers'] and o.get('unit') and not o.get('non_unit'):
+                # --unit is implemented as a --layer pattern (the unit layer's name as an
+                # unanchored regex): with a look-alike layer name that is a don't-care zone
+                del o['unit']
+            cases.append({'id': w['id'], 'world': w, 'o': o, 'mode': 'inproc'})
     # the same selection observed by really running (grouping under the right layer)
     for c in rng.sample(cases, 150 if tier == 'quick' else 1500):
         o = dict(c['o'])
